@@ -121,8 +121,11 @@ class Renderer:
     ``style`` (a ``random.Random``-like object or None for the plain spelling).
     """
 
-    def __init__(self, world, placement, mode, style=None):
+    def __init__(self, world, placement, mode, style=None, extlinks=None):
         self.w, self.p, self.mode, self.style = world, placement, mode, style
+        # {target book index: numeric external-link id} of the host book:
+        # cross-book references are then spelt `[1]Sheet!A1` as Excel does
+        self.extlinks = extlinks
 
     def lit(self, e):
         k, v = e[0], e[1]
@@ -154,6 +157,11 @@ class Renderer:
         if st and st.random() < .2:
             name = name.upper() if st.random() < .5 else name.lower()
         if b != hb:
+            if self.extlinks and b in self.extlinks:
+                if sheet_needs_quote(name):
+                    return "'[%d]%s'!%s" % (self.extlinks[b],
+                                            name.replace("'", "''"), a1)
+                return '[%d]%s!%s' % (self.extlinks[b], name, a1)
             return "'[%s]%s'!%s" % (self.p.file(b), name, a1)
         if sheet_needs_quote(name) or (st and st.random() < .3):
             return "'%s'!%s" % (name.replace("'", "''"), a1)
